@@ -178,6 +178,10 @@ def unsplit_netloc(username, password, hostname, port):
     else:
         auth = None
 
+    # NOTE: a url can carry userinfo or a port without any host ("http://u@/a")
+    if hostname is None:
+        hostname = ""
+
     # NOTE: IPv6 hosts must be written back between brackets
     if hostname and ":" in hostname:
         hostname = "[" + hostname + "]"
